@@ -71,6 +71,13 @@ EdgesOK(d) == \A e \in Edges(d) :
   /\ s[2] >= 0 /\ t[2] >= 0
   /\ s[2] < PortCount(Op(d, s[1]), "out") /\ t[2] < PortCount(Op(d, t[1]), "in")     \* port counts = the op's signature
   /\ EdgeTypesAgree(d, e)
+(* the part of EdgesOK that C03 states: every edge end addresses a port its operation has, and both ends have the same kind
+   (value ports by signature position, the static port right after the value inputs, the order port right after those) *)
+PortAddressingOK(d) == \A e \in Edges(d) :
+  LET s == Src(d, e) t == Dst(d, e) IN
+  /\ s[2] >= 0 /\ t[2] >= 0
+  /\ s[2] < PortCount(Op(d, s[1]), "out") /\ t[2] < PortCount(Op(d, t[1]), "in")
+  /\ PortKind(Op(d, s[1]), "out", s[2])[1] = PortKind(Op(d, t[1]), "in", t[2])[1]
 RootNoEdges(d) == \A e \in Edges(d) : Src(d, e)[1] # 0 /\ Dst(d, e)[1] # 0
 
 (* ---------------------------------------------------------------- locality *)
@@ -156,7 +163,7 @@ Failing(d) ==
   (IF IndexSane(d) THEN {} ELSE {"IndexSane"}) \cup
   (IF ~IndexSane(d) THEN {} ELSE
      (IF ChildrenOK(d) THEN {} ELSE {"ChildrenOK"}) \cup (IF EdgesOK(d) THEN {} ELSE {"EdgesOK"}) \cup
-     (IF RootNoEdges(d) THEN {} ELSE {"RootNoEdges"}) \cup
+     (IF RootNoEdges(d) THEN {} ELSE {"RootNoEdges"}) \cup (IF PortAddressingOK(d) THEN {} ELSE {"PortAddressing"}) \cup
      (IF ~EdgesOK(d) THEN {} ELSE
         (IF LocalityOK(d) THEN {} ELSE {"LocalityOK"}) \cup (IF CfgEdgesOK(d) THEN {} ELSE {"CfgEdgesOK"}) \cup
         (IF InputsConnected(d) THEN {} ELSE {"User.InputsConnected"}) \cup (IF LinearOnce(d) THEN {} ELSE {"User.LinearOnce"}) \cup
